@@ -78,23 +78,23 @@ MoveEntrypointsRel(e, f)    == \E x \in EpPlaces \ {e.ep} : f = [e EXCEPT !.ep =
 Range(s) == {s[i] : i \in DOMAIN s}
 Bag(s) == [x \in Range(s) |-> Cardinality({i \in DOMAIN s : s[i] = x})]
 ArtPaths(o) == {o.arts[i].path : i \in DOMAIN o.arts}
-DigestOf(o, p) == (CHOOSE i \in DOMAIN o.arts : o.arts[i].path = p).digest
-ArtMap(o) == [p \in ArtPaths(o) |-> o.arts[CHOOSE i \in DOMAIN o.arts : o.arts[i].path = p].digest]
+DigestOf(o, p) == o.arts[CHOOSE i \in DOMAIN o.arts : o.arts[i].path = p].digest
+ArtMap(o) == [p \in ArtPaths(o) |-> DigestOf(o, p)]
 
 SameFiles(e1, e2) == e1.lit = e2.lit /\ e1.ep = e2.ep
 
 SameOutput(a, b) ==
   /\ a.outcome = b.outcome
-  /\ ArtMap(a) = ArtMap(b)
+  /\ (a.arts = b.arts \/ ArtMap(a) = ArtMap(b))      \* the first disjunct is only a shortcut
   /\ SameFiles(a.env, b.env) => a.diags = b.diags
 
 \* which clause of SameOutput fails ("" when it holds); `what` names the first differing artifact
 Difference(a, b) ==
   IF a.outcome # b.outcome THEN [aspect |-> "outcome", what |-> a.outcome \o "/" \o b.outcome]
-  ELSE IF ArtPaths(a) # ArtPaths(b)
+  ELSE IF a.arts # b.arts /\ ArtPaths(a) # ArtPaths(b)
        THEN [aspect |-> "artifact-set",
              what |-> CHOOSE p \in (ArtPaths(a) \ ArtPaths(b)) \cup (ArtPaths(b) \ ArtPaths(a)) : TRUE]
-  ELSE IF ArtMap(a) # ArtMap(b)
+  ELSE IF a.arts # b.arts /\ ArtMap(a) # ArtMap(b)
        THEN [aspect |-> "artifact-bytes", what |-> CHOOSE p \in ArtPaths(a) : DigestOf(a, p) # DigestOf(b, p)]
   ELSE IF SameFiles(a.env, b.env) /\ a.diags # b.diags
        THEN IF Bag(a.diags) = Bag(b.diags) THEN [aspect |-> "diagnostic-order", what |-> ""]
